@@ -1,14 +1,16 @@
 import LekkerVerif.Generated.Tables
 import LekkerVerif.Proofs.Blocks
+import LekkerVerif.Proofs.BlocksTie
 
 /-! # C09 — library blocks implement their documented physics; uniform model interface
 
 Interface part: facts the translator reads syntactically from `/repo/lekkersim/model.py` on every run
-(`Generated/Tables.lean`), decided over the whole finite table.  Physics part: the closed forms in
-`Proofs/Blocks.lean` are written in the shape of the source expressions; `C09_block_sources` pins the normalised
-source text of every block's matrix-building statements to the expressions modelled there (a textual tie: any edit
-of a formula breaks it and sends the check to the oracle run), and the theorems hold for *all* real parameter
-values in the stated range. -/
+(`Generated/Tables.lean`), decided over the whole finite table.  Physics part: the theorems below are about the
+matrices of `Generated/Blocks.lean`, which the translator obtains on every run by executing the block classes of the
+current source with symbolic parameters (`harness/translate/blocks.py`); `Proofs/BlocksTie.lean` identifies each
+traced matrix with a hand-written closed form (`Proofs/Blocks.lean`) by a script that tolerates re-association and
+equivalent spellings, and the physics is proved for *all* real parameter values in the stated range.  An edit of a
+formula that changes its meaning breaks the identification (the obligation no longer builds). -/
 
 namespace C09
 
@@ -40,86 +42,122 @@ theorem C09_str_specs : ∀ s ∈ Generated.strSpecs, fmtOk (exprTy s.2.2.2) s.2
 /-- non-vacuity of `fmtOk`: the spec that failed on the pinned tree is rejected for an int-typed argument -/
 example : fmtOk (exprTy false) ".3" = false ∧ fmtOk (exprTy true) ".3" = true := by decide
 
-/-- the matrix-building statements of every documented block in the current source are the ones modelled in
-`Proofs/Blocks.lean` (normalised source text; an edited formula breaks this obligation) -/
-theorem C09_block_sources :
-    Generated.blockSource.lookup "Waveguide" = some "self.S = np.zeros((self.N, self.N), complex) ; self.S[0, 1] = np.exp(2j * np.pi * n / wl * self.L) ; self.S[1, 0] = np.exp(2j * np.pi * n / wl * self.L) ; return self.S" ∧
-    Generated.blockSource.lookup "UserWaveguide" = some "for mode, extra in self.allowed.items(): n = self.index_func(**{**self.param_dic, **extra}) S = np.zeros((2, 2), complex) S[0, 1] = np.exp(2j * np.pi * n / wl * self.L) S[1, 0] = np.exp(2j * np.pi * n / wl * self.L) S_list.append(S) ; self.S = diag_blocks(S_list) ; return self.S" ∧
-    Generated.blockSource.lookup "BeamSplitter" = some "p1 = np.pi * self.phase ; c = 1j * np.sqrt(self.ratio) ; t = np.sqrt(1.0 - self.ratio) if t is None else np.sqrt(t) ; self.S = np.zeros((self.N, self.N), complex) ; self.S[:2, 2:] = np.exp(2j * np.pi * phase) * np.array([[t, c], [c, t]]) ; self.S[2:, :2] = np.exp(2j * np.pi * phase) * np.array([[t, c], [c, t]])" ∧
-    Generated.blockSource.lookup "Splitter1x2" = some "self.S = 1.0 / np.sqrt(2.0) * np.array([[0.0, 1.0, 1.0], [1.0, 0.0, 0.0], [1.0, 0.0, 0.0]], complex)" ∧
-    Generated.blockSource.lookup "PhaseShifter" = some "S = np.zeros((self.N, self.N), complex) ; S[0, 1] = np.exp(1j * np.pi * self.param_dic[self.pn]) ; S[1, 0] = np.exp(1j * np.pi * self.param_dic[self.pn]) ; self.S = S ; return self.S" ∧
-    Generated.blockSource.lookup "PushPullPhaseShifter" = some "S1 = np.zeros((2, 2), complex) ; S1[0, 1] = np.exp(0.5j * np.pi * self.param_dic[self.pn]) ; S1[1, 0] = np.exp(0.5j * np.pi * self.param_dic[self.pn]) ; S2 = np.zeros((2, 2), complex) ; S2[0, 1] = np.exp(-0.5j * np.pi * self.param_dic[self.pn]) ; S2[1, 0] = np.exp(-0.5j * np.pi * self.param_dic[self.pn]) ; self.S = diag_blocks([S1, S2]) ; return self.S" ∧
-    Generated.blockSource.lookup "PolRot" = some "if self.fixed: return self.S else: angle = self.param_dic[self.angle_name] c = np.cos(np.pi * angle) s = np.sin(np.pi * angle) S = np.zeros((self.N, self.N), complex) S[:2, 2:] = np.array([[c, s], [-s, c]]) S[2:, :2] = np.array([[c, -s], [s, c]]) return S" ∧
-    Generated.blockSource.lookup "Attenuator" = some "self.S = np.zeros((self.N, self.N), complex) ; self.S[0, 1] = 10.0 ** (-0.05 * loss) ; self.S[1, 0] = 10.0 ** (-0.05 * loss)" ∧
-    Generated.blockSource.lookup "LinearAttenuator" = some "self.S = np.zeros((self.N, self.N), complex) ; self.S[0, 1] = np.sqrt(c) ; self.S[1, 0] = np.sqrt(c)" ∧
-    Generated.blockSource.lookup "Mirror" = some "t = np.sqrt(self.ref) ; c = np.sqrt(1.0 - self.ref) ; p1 = np.pi * self.phase ; self.S = np.array([[t * np.exp(1j * p1), c], [-c, t * np.exp(-1j * p1)]], complex)" ∧
-    Generated.blockSource.lookup "PerfectMirror" = some "p1 = np.pi * self.phase ; self.S = np.array([[np.exp(1j * p1)]], complex)" ∧
-    Generated.blockSource.lookup "TH_PhaseShifter" = some "self.S = np.zeros((self.N, self.N), complex) ; self.S[0, 1] = np.exp(1j * np.pi * (2.0 * n / wl * self.L + self.param_dic[self.pn])) ; self.S[1, 0] = np.exp(1j * np.pi * (2.0 * n / wl * self.L + self.param_dic[self.pn])) ; return self.S" ∧
-    Generated.blockSource.lookup "PolRot.__init__" = some "c = np.cos(np.pi * angle) ; s = np.sin(np.pi * angle) ; self.S = np.zeros((self.N, self.N), complex) ; self.S[:2, 2:] = np.array([[c, s], [-s, c]]) ; self.S[2:, :2] = np.array([[c, -s], [s, c]])" := by
-  decide +kernel
+open Matrix
+open Generated.Blocks
 
-open Blocks Matrix
+/-- the matrix built by the current source is the modelled closed form, block by block (semantic tie) -/
+theorem C09_src_closed_forms :
+    (∀ L n wl : ℝ, waveguide L n wl = Blocks.waveguide L n wl) ∧
+    (∀ L wl n0 n1 : ℝ, userWaveguide2 L wl n0 n1 = Blocks.userWaveguide2 L wl n0 n1) ∧
+    (∀ ratio phase : ℝ, beamSplitter ratio phase = Blocks.beamSplitter ratio phase) ∧
+    (∀ ratio t phase : ℝ, beamSplitterT ratio t phase = Blocks.beamSplitterT ratio t phase) ∧
+    splitter1x2 = Blocks.splitter1x2 ∧
+    (∀ ps : ℝ, phaseShifter ps = Blocks.phaseShifter ps) ∧
+    (∀ ps : ℝ, pushPull ps = Blocks.pushPull ps) ∧
+    (∀ angle : ℝ, polRotFixed angle = Blocks.polRot angle) ∧
+    (∀ angle : ℝ, polRotVar angle = Blocks.polRot angle) ∧
+    (∀ loss : ℝ, attenuator loss = Blocks.attenuator loss) ∧
+    (∀ c : ℝ, linearAttenuator c = Blocks.linearAttenuator c) ∧
+    (∀ ref phase : ℝ, mirror ref phase = Blocks.mirror ref phase) ∧
+    (∀ phase : ℝ, perfectMirror phase = Blocks.perfectMirror phase) ∧
+    (∀ L n wl ps : ℝ, thPhaseShifter L n wl ps = Blocks.thPhaseShifter L n wl ps) ∧
+    (∀ cross phase : ℝ, splitter1x2Gen cross phase = Blocks.splitter1x2Gen cross phase) :=
+  ⟨BlocksTie.waveguide, BlocksTie.userWaveguide2, BlocksTie.beamSplitter, BlocksTie.beamSplitterT, BlocksTie.splitter1x2,
+   BlocksTie.phaseShifter, BlocksTie.pushPull, BlocksTie.polRotFixed, BlocksTie.polRotVar, BlocksTie.attenuator,
+   BlocksTie.linearAttenuator, BlocksTie.mirror, BlocksTie.perfectMirror, BlocksTie.thPhaseShifter,
+   BlocksTie.splitter1x2Gen⟩
 
 /-- Waveguide / thermal shifter / phase shifter: phase `2π n L / wl` (+ `π PS`), no reflection, symmetric, lossless -/
 theorem C09_waveguide (L n wl : ℝ) :
     waveguide L n wl 0 1 = Complex.exp (((2 * Real.pi * n * L / wl : ℝ) : ℂ) * Complex.I) ∧
     waveguide L n wl 0 0 = 0 ∧ waveguide L n wl 1 1 = 0 ∧ (waveguide L n wl)ᵀ = waveguide L n wl ∧
-    (waveguide L n wl)ᴴ * waveguide L n wl = 1 :=
-  ⟨(waveguide_phase L n wl).1, rfl, rfl, antidiag_symm _, waveguide_unitary L n wl⟩
+    (waveguide L n wl)ᴴ * waveguide L n wl = 1 := by
+  rw [BlocksTie.waveguide]
+  exact ⟨(Blocks.waveguide_phase L n wl).1, rfl, rfl, Blocks.antidiag_symm _, Blocks.waveguide_unitary L n wl⟩
+
+/-- multi-mode waveguide (two modes traced): each mode is a waveguide with its own index, modes do not mix, lossless -/
+theorem C09_userWaveguide (L wl n0 n1 : ℝ) :
+    (∀ i j : Fin 2, userWaveguide2 L wl n0 n1 (Fin.castLE (by norm_num) i) (Fin.castLE (by norm_num) j) = waveguide L n0 wl i j) ∧
+    (∀ i j : Fin 2, userWaveguide2 L wl n0 n1 (Fin.natAdd 2 i) (Fin.natAdd 2 j) = waveguide L n1 wl i j) ∧
+    (∀ i j : Fin 2, userWaveguide2 L wl n0 n1 (Fin.castLE (by norm_num) i) (Fin.natAdd 2 j) = 0) ∧
+    (∀ i j : Fin 2, userWaveguide2 L wl n0 n1 (Fin.natAdd 2 i) (Fin.castLE (by norm_num) j) = 0) ∧
+    (userWaveguide2 L wl n0 n1)ᴴ * userWaveguide2 L wl n0 n1 = 1 := by
+  rw [BlocksTie.userWaveguide2, BlocksTie.waveguide, BlocksTie.waveguide]
+  obtain ⟨a, b, c, d⟩ := Blocks.userWaveguide2_modes L wl n0 n1
+  exact ⟨a, b, c, d, Blocks.userWaveguide2_unitary L wl n0 n1⟩
 
 theorem C09_phaseShifter (ps : ℝ) :
-    phaseShifter ps 0 1 = Complex.exp (((Real.pi * ps : ℝ) : ℂ) * Complex.I) ∧ (phaseShifter ps)ᴴ * phaseShifter ps = 1 :=
-  ⟨phaseShifter_phase ps, phaseShifter_unitary ps⟩
+    phaseShifter ps 0 1 = Complex.exp (((Real.pi * ps : ℝ) : ℂ) * Complex.I) ∧ (phaseShifter ps)ᴴ * phaseShifter ps = 1 := by
+  rw [BlocksTie.phaseShifter]
+  exact ⟨Blocks.phaseShifter_phase ps, Blocks.phaseShifter_unitary ps⟩
 
 theorem C09_thPhaseShifter (L n wl ps : ℝ) :
     thPhaseShifter L n wl ps 0 1 = Complex.exp (((2 * Real.pi * n * L / wl + Real.pi * ps : ℝ) : ℂ) * Complex.I) ∧
-    (thPhaseShifter L n wl ps)ᴴ * thPhaseShifter L n wl ps = 1 :=
-  ⟨thPhaseShifter_phase L n wl ps, thPhaseShifter_unitary L n wl ps⟩
+    (thPhaseShifter L n wl ps)ᴴ * thPhaseShifter L n wl ps = 1 := by
+  rw [BlocksTie.thPhaseShifter]
+  exact ⟨Blocks.thPhaseShifter_phase L n wl ps, Blocks.thPhaseShifter_unitary L n wl ps⟩
 
 /-- push-pull: `± π PS / 2` on the two arms, lossless -/
 theorem C09_pushPull (ps : ℝ) :
     pushPull ps 0 1 = Complex.exp (((Real.pi * ps / 2 : ℝ) : ℂ) * Complex.I) ∧
-    pushPull ps 2 3 = Complex.exp (((-(Real.pi * ps / 2) : ℝ) : ℂ) * Complex.I) ∧ (pushPull ps)ᴴ * pushPull ps = 1 :=
-  ⟨(pushPull_phase ps).1, (pushPull_phase ps).2, pushPull_unitary ps⟩
+    pushPull ps 2 3 = Complex.exp (((-(Real.pi * ps / 2) : ℝ) : ℂ) * Complex.I) ∧ (pushPull ps)ᴴ * pushPull ps = 1 := by
+  rw [BlocksTie.pushPull]
+  exact ⟨(Blocks.pushPull_phase ps).1, (Blocks.pushPull_phase ps).2, Blocks.pushPull_unitary ps⟩
 
 /-- attenuators: `10^(-loss/10)` resp. `c` in power; passive in the physical range -/
 theorem C09_attenuator (loss : ℝ) :
-    Complex.normSq (attenuator loss 0 1) = (10 : ℝ) ^ (-loss / 10) ∧ (0 ≤ loss → Complex.normSq (attenuator loss 0 1) ≤ 1) :=
-  ⟨attenuator_power loss, attenuator_passive loss⟩
+    Complex.normSq (attenuator loss 0 1) = (10 : ℝ) ^ (-loss / 10) ∧ (0 ≤ loss → Complex.normSq (attenuator loss 0 1) ≤ 1) := by
+  rw [BlocksTie.attenuator]
+  exact ⟨Blocks.attenuator_power loss, Blocks.attenuator_passive loss⟩
 
 theorem C09_linearAttenuator (c : ℝ) (h0 : 0 ≤ c) :
-    Complex.normSq (linearAttenuator c 0 1) = c ∧ (c ≤ 1 → Complex.normSq (linearAttenuator c 0 1) ≤ 1) :=
-  ⟨linearAttenuator_power c h0, linearAttenuator_passive c h0⟩
+    Complex.normSq (linearAttenuator c 0 1) = c ∧ (c ≤ 1 → Complex.normSq (linearAttenuator c 0 1) ≤ 1) := by
+  rw [BlocksTie.linearAttenuator]
+  exact ⟨Blocks.linearAttenuator_power c h0, Blocks.linearAttenuator_passive c h0⟩
 
 /-- beam splitter (t = None): stated power ratios, no reflection, lossless for every ratio in [0,1] and every phase -/
 theorem C09_beamSplitter (ratio phase : ℝ) (h0 : 0 ≤ ratio) (h1 : ratio ≤ 1) :
     Complex.normSq (beamSplitter ratio phase 0 2) = 1 - ratio ∧ Complex.normSq (beamSplitter ratio phase 0 3) = ratio ∧
     beamSplitter ratio phase 0 0 = 0 ∧ beamSplitter ratio phase 0 1 = 0 ∧
     (beamSplitter ratio phase)ᴴ * beamSplitter ratio phase = 1 := by
-  obtain ⟨a, b, _, _, c, d, _, _⟩ := beamSplitter_power ratio phase h0 h1
-  exact ⟨a, b, c, d, beamSplitter_unitary ratio phase h0 h1⟩
+  rw [BlocksTie.beamSplitter]
+  obtain ⟨a, b, _, _, c, d, _, _⟩ := Blocks.beamSplitter_power ratio phase h0 h1
+  exact ⟨a, b, c, d, Blocks.beamSplitter_unitary ratio phase h0 h1⟩
+
+/-- beam splitter with an explicit power transmission `t`: through `t`, cross `ratio`, in both directions, no reflection -/
+theorem C09_beamSplitterT (ratio t phase : ℝ) (h0 : 0 ≤ ratio) (ht : 0 ≤ t) :
+    Complex.normSq (beamSplitterT ratio t phase 0 2) = t ∧ Complex.normSq (beamSplitterT ratio t phase 0 3) = ratio ∧
+    Complex.normSq (beamSplitterT ratio t phase 2 0) = t ∧ Complex.normSq (beamSplitterT ratio t phase 3 0) = ratio ∧
+    beamSplitterT ratio t phase 0 0 = 0 ∧ beamSplitterT ratio t phase 0 1 = 0 := by
+  rw [BlocksTie.beamSplitterT]
+  exact Blocks.beamSplitterT_power ratio t phase h0 ht
 
 /-- mirrors: `|S00|² = ref`, `|S01|² = 1 - ref`, power-reciprocal, lossless -/
 theorem C09_mirror (ref phase : ℝ) (h0 : 0 ≤ ref) (h1 : ref ≤ 1) :
     Complex.normSq (mirror ref phase 0 0) = ref ∧ Complex.normSq (mirror ref phase 0 1) = 1 - ref ∧
     Complex.normSq (mirror ref phase 1 0) = Complex.normSq (mirror ref phase 0 1) ∧
     (mirror ref phase)ᴴ * mirror ref phase = 1 := by
-  obtain ⟨a, _, c, d⟩ := mirror_power ref phase h0 h1
-  exact ⟨a, c, d.trans c.symm, mirror_unitary ref phase h0 h1⟩
+  rw [BlocksTie.mirror]
+  obtain ⟨a, _, c, d⟩ := Blocks.mirror_power ref phase h0 h1
+  exact ⟨a, c, d.trans c.symm, Blocks.mirror_unitary ref phase h0 h1⟩
 
-theorem C09_perfectMirror (phase : ℝ) : Complex.normSq (perfectMirror phase 0 0) = 1 := perfectMirror_unit phase
+theorem C09_perfectMirror (phase : ℝ) : Complex.normSq (perfectMirror phase 0 0) = 1 := by
+  rw [BlocksTie.perfectMirror]; exact Blocks.perfectMirror_unit phase
 
-/-- polarisation rotator: rotation by `π angle`, lossless -/
+/-- polarisation rotator (fixed angle and angle read from the parameter): rotation by `π angle`, lossless -/
 theorem C09_polRot (angle : ℝ) :
-    polRot angle 0 2 = (Real.cos (Real.pi * angle) : ℝ) ∧ polRot angle 0 3 = (Real.sin (Real.pi * angle) : ℝ) ∧
-    (polRot angle)ᴴ * polRot angle = 1 :=
-  ⟨rfl, rfl, polRot_unitary angle⟩
+    polRotFixed angle = polRotVar angle ∧
+    polRotVar angle 0 2 = (Real.cos (Real.pi * angle) : ℝ) ∧ polRotVar angle 0 3 = (Real.sin (Real.pi * angle) : ℝ) ∧
+    (polRotVar angle)ᴴ * polRotVar angle = 1 := by
+  rw [BlocksTie.polRotFixed, BlocksTie.polRotVar]
+  exact ⟨rfl, rfl, rfl, Blocks.polRot_unitary angle⟩
 
 /-- 1×2 splitter: 50/50, no reflection at a0, never gain -/
 theorem C09_splitter1x2 :
     Complex.normSq (splitter1x2 1 0) = 1 / 2 ∧ Complex.normSq (splitter1x2 2 0) = 1 / 2 ∧ splitter1x2 0 0 = 0 ∧
-    ∀ x : Fin 3 → ℂ, ∑ i, Complex.normSq ((splitter1x2 *ᵥ x) i) ≤ ∑ i, Complex.normSq (x i) :=
-  ⟨splitter1x2_power.1, splitter1x2_power.2.1, splitter1x2_power.2.2, splitter1x2_passive⟩
+    ∀ x : Fin 3 → ℂ, ∑ i, Complex.normSq ((splitter1x2 *ᵥ x) i) ≤ ∑ i, Complex.normSq (x i) := by
+  rw [BlocksTie.splitter1x2]
+  exact ⟨Blocks.splitter1x2_power.1, Blocks.splitter1x2_power.2.1, Blocks.splitter1x2_power.2.2, Blocks.splitter1x2_passive⟩
 
 
 /-! ### recorded findings (negative results, with the witness the harness replays on the real code)
